@@ -125,7 +125,9 @@ impl<'a> WorkerState<'a> {
 				}
 				Ok(info)
 			}
-			Err(f) if f.oracle == "inconclusive" => {
+			// "setup": the harness could not even build the scenario (a generator that asks for
+			// more than the harness provides) - a defect of the check, never a verdict about the code
+			Err(f) if f.oracle == "inconclusive" || f.oracle == "setup" => {
 				// the harness could not establish the case's preconditions (e.g. a helper thread
 				// was not scheduled in time): not a verdict about the code
 				if self.res.inconclusive.len() < 5 {
